@@ -5,6 +5,8 @@
 //                        tree's fields; per (tree, Message) pair:  real.Matches == reference   (key decision|<kind>)
 //                        restored-from-archive filter decides like the original              (key archive|...)
 //                        filter parsed from the pretty-printed expression decides like the reference (key expression|...)
+//                        archive of a random node of the tree restored by SetFromArchive() into a USED object of the same class (built from a different
+//                        filter of that kind, already evaluated) decides like the original  (key archive|restored-into-used-object-decides-differently|<kind>)
 //                        flattened bytes of the Message unchanged by all evaluations          (key evaluation-modified-message)
 //   hostile              one case = one hostile input: a field-wise mutated archive, an extreme archive (10^4 children, nesting to 2000),
 //                        a token soup or deep parentheses for the expression parser; outcome = NULL ref or a filter that evaluates 20
@@ -93,6 +95,74 @@ static const AFilter & Blame(const AFilter & n, const AMsg & am, bool (*mm)(cons
    return n;
 }
 
+
+// ---- third restore route: SetFromArchive() into an EXISTING, already used object of the same class
+static void CollectNodes(const AFilter & f, std::vector<const AFilter *> & out) { out.push_back(&f); for (size_t i = 0; i < f.kids.size(); i++) CollectNodes(f.kids[i], out); }
+// a DIFFERENT filter of the same kind (same C++ class) as (f): other operand / operator / index / default / mask / children
+static AFilter VariantOfSameKind(vh::Rng & g, const AFilter & f, const GenOptions & o0, std::string & how)
+{
+   GenOptions o = o0; o.maxDepth = 2; o.exprFriendly = false;
+   AFilter v = f;
+   switch (f.kind) {
+      case FK_WHAT: v.lo = f.lo + 1 + g.R(3); v.hi = g.R(2) ? v.lo : MUSCLE_NO_LIMIT; how = "other range"; break;
+      case FK_EXISTS: v.field = PickName(g, false).name; v.index = f.index ? 0 : 1; v.typeCode = f.typeCode == B_ANY_TYPE ? (uint32)B_INT32_TYPE : (uint32)B_ANY_TYPE; how = "other field, index and type"; break;
+      case FK_NUMERIC:
+         switch (g.R(5)) {
+            case 0: v.index = f.index ? 0 : 1 + g.R(2); how = "other index"; break;
+            case 1: v.hasDef = !f.hasDef; if (v.hasDef) v.def = GenNumVal(g, f.vt, false); how = "default presence toggled"; break;
+            case 2: if (f.vt <= VT_INT64) { if (f.maskOp) v.maskOp = 0; else { v.maskOp = (uint8)(1 + g.R(6)); v.mask = GenNumVal(g, f.vt, false); } how = "mask toggled"; break; } /* fall through */
+            case 3: v.op = (uint8)((f.op + 1 + g.R(5)) % 6); v.value = GenNumVal(g, f.vt, false); how = "other operator and value"; break;
+            default: v.field = PickName(g, false).name; v.def = GenNumVal(g, f.vt, false); v.hasDef = true; v.index = g.R(3); how = "other field, default and index"; break;
+         }
+         break;
+      case FK_STRING: case FK_NODENAME:
+         if (g.R(3)) { how = "same operator, other operand"; if (f.op >= 24 && f.op <= 27) { for (int t = 0; t < 20; t++) { GenPattern(g, v, GenOptions()); if (v.value.s != f.value.s && !v.value.s.empty()) break; } if (v.value.s.empty() || v.value.s == f.value.s) { v.patKind = PAT_GLOB; v.wild.reset(); v.pat.clear(); PTok t; t.kind = PT_ANYN; v.pat.push_back(t); v.value.s = PatToString(v, v.op == 25 || v.op == 27); } } else v.value.s = f.value.s + "x"; }
+         else { how = "other operator"; v.op = (uint8)((f.op + 1 + g.R(27)) % 28); v.patKind = PAT_NONE; v.pat.clear(); v.wild.reset(); if (v.op >= 24) GenPattern(g, v, GenOptions()); else if (v.value.s.empty()) v.value.s = "a"; }
+         if (f.kind == FK_STRING && g.R(3) == 0) { v.hasDef = !f.hasDef; v.def.s = "Ab"; how += ", default presence toggled"; }
+         break;
+      case FK_RAW:
+         switch (g.R(3)) { case 0: v.hasDef = !f.hasDef; if (v.hasDef) v.def.s = g.R(3) ? GenBytes(g, false) : std::string(); how = "default presence toggled"; break; case 1: v.value.s = GenBytes(g, false) + "z"; v.nullValue = false; v.op = (uint8)g.R(12); how = "other operand and operator"; break; default: v.nullValue = !f.nullValue; if (!v.nullValue && v.value.s.empty()) v.value.s = "q"; v.typeCode = f.typeCode == B_ANY_TYPE ? (uint32)B_RAW_TYPE : (uint32)B_ANY_TYPE; v.index = f.index ? 0 : 2; how = "operand presence, type code and index"; break; }
+         break;
+      case FK_MESSAGE:
+         v.kids.clear(); v.hasChild = g.R(3) != 0 || !f.hasChild; if (v.hasChild) v.kids.push_back(GenFilter(g, o, 1));
+         if (f.defMsg) { if (g.R(2)) v.defMsg.reset(); else v.defMsg = GenRandomMessage(g, 2, o); } else if (g.R(2)) v.defMsg = GenRandomMessage(g, 2, o);
+         v.index = f.index ? 0 : 1; how = "other child filter / default Message / index"; break;
+      case FK_CHILDCOUNT: v.op = (uint8)((f.op + 1 + g.R(5)) % 6); v.value.i = f.value.i + 1; how = "other operator and value"; break;
+      default: {   // combinators: a children list of another length, another threshold
+         v.kids.clear(); uint32 nk = g.R(5); if (nk == f.kids.size()) nk++; for (uint32 i = 0; i < nk; i++) v.kids.push_back(GenFilter(g, o, 1));
+         if (f.kind == FK_MINMATCH || f.kind == FK_MAXMATCH) v.threshold = f.threshold == 0 ? MUSCLE_NO_LIMIT : f.threshold == MUSCLE_NO_LIMIT ? 1 : 0;
+         how = vh::fmt("%u children instead of %zu", nk, f.kids.size()); } break;
+   }
+   return v;
+}
+// returns "" or what went wrong (detail); *keyPart gets the key family
+static std::string RestoreIntoUsedObject(vh::Rng & g, const AFilter & sub, const std::vector<AMsgRef> & msgs, const GenOptions & o, std::string & keyPart)
+{
+   QueryFilterRef orig = BuildFilter(sub);
+   Message a; if (orig()->SaveToArchive(a).IsError()) return "";   // (reported by the factory route already)
+   const std::string b = Flat(a); Message a2; if (a2.UnflattenFromBytes((const uint8 *)b.data(), (uint32)b.size()).IsError()) return "";
+   std::string how; const AFilter other = VariantOfSameKind(g, sub, o, how);
+   QueryFilterRef used = BuildFilter(other);
+   if (used()->TypeCode() != orig()->TypeCode()) { fprintf(stderr, "HARNESS-ABORT: variant of another class\n"); abort(); }
+   // use the object first: a few Messages steered around ITS fields (a string/wildcard filter compiles and caches its matcher here), with a node for the node filters
+   ShapeStats ss; long usedEvals = 0;
+   for (int j = 0; j < 4; j++) {
+      AMsgRef um = GenMessageFor(g, other, o, ss);
+      if (j == 0 && (other.kind == FK_STRING)) { AField & fld = um->Set(other.field, VT_STRING, B_STRING_TYPE); for (uint32 i = 0; i <= (other.index > 6 ? 0 : other.index); i++) fld.items.push_back(SV(other.op >= 24 ? SamplePattern(g, other) : other.value.s)); }
+      MessageRef rm = BuildMessage(*um); ConstMessageRef cm = rm; (void)used()->Matches(cm, rNodes[(j + 1) % NUM_TEST_NODES]()); usedEvals++;
+   }
+   vh::stat(std::string("restores_into_used_object_") + FKName(sub.kind));
+   const status_t r = used()->SetFromArchive(a2);
+   if (r.IsError()) { keyPart = "archive|restore-into-used-object-failed|" + KindKey(sub); return std::string("SetFromArchive() on a used object returned ") + r() + " | archive of " + DescribeFilter(sub) + " | object was " + DescribeFilter(other); }
+   for (size_t j = 0; j < msgs.size(); j++) {
+      MessageRef rm = BuildMessage(*msgs[j]); ConstMessageRef c1 = rm, c2 = rm;
+      const bool want = orig()->Matches(c1, curRNode), got = used()->Matches(c2, curRNode); vh::stat("used_object_decisions");
+      if (want != got) { keyPart = "archive|restored-into-used-object-decides-differently|" + KindKey(sub); return vh::fmt("original=%d reused object=%d on %s | archive of %s restored by SetFromArchive() into an object that was %s (%s) and had evaluated %ld Messages", (int)want, (int)got, DescribeMsg(*msgs[j]).c_str(), DescribeFilter(sub).c_str(), DescribeFilter(other).c_str(), how.c_str(), usedEvals); }
+   }
+   if (!used()->IsEqualTo(*orig())) vh::stat(std::string("used_object_not_isequalto_original_") + FKName(sub.kind));
+   return "";
+}
+
 static GenOptions gopt;
 static void CountTreeStats(const AFilter & f);
 static EvalCtx ectx;   // accumulates the per-kind decision tallies of the reference over the whole run
@@ -125,10 +195,10 @@ static void RunSemCase(long k)
    curANode = withNode ? &aNodes[ni] : NULL; curRNode = withNode ? rNodes[ni]() : NULL;
    vh::stat(curANode ? "pairs_with_datanode" : "pairs_without_datanode", 0);
 
-   ShapeStats ss; bool sawTrue = false, sawFalse = false;
+   ShapeStats ss; bool sawTrue = false, sawFalse = false; std::vector<AMsgRef> allMsgs;
    const uint32 nmsg = 6 + g.R(10);
    for (uint32 j = 0; j < nmsg && !bad; j++) {
-      AMsgRef am = GenMessageFor(g, tree, gopt, ss);
+      AMsgRef am = GenMessageFor(g, tree, gopt, ss); allMsgs.push_back(am);
       MessageRef rm = BuildMessage(*am);
       const std::string flat0 = Flat(*rm());
       ectx.node = curANode; ectx.why.clear();
@@ -163,6 +233,12 @@ static void RunSemCase(long k)
          }
       }
       if (Flat(*rm()) != flat0) { vh::viol("evaluation-modified-message", "tree " + desc + " | Message " + DescribeMsg(*am)); bad = true; break; }
+   }
+   if (!bad) {   // third restore route, on the root (1 in 3) or on a random node of the tree; its own PRNG stream
+      vh::Rng gu(vh::case_seed(seed, 1404, (uint64_t)k)); std::vector<const AFilter *> nodes; CollectNodes(tree, nodes);
+      const AFilter & sub = *nodes[gu.R(3) == 0 ? 0 : gu.R((uint32)nodes.size())];
+      std::string key; const std::string d = RestoreIntoUsedObject(gu, sub, allMsgs, o, key);
+      if (!d.empty()) { vh::viol(key, d); bad = true; }
    }
    vh::stat("shape_field_missing", ss.missing); vh::stat("shape_wrong_type", ss.wrongType); vh::stat("shape_fewer_items_than_index", ss.tooShort); vh::stat("shape_item_equals_operand", ss.equal);
    vh::stat("shape_item_next_to_operand", ss.near); vh::stat("shape_item_unrelated", ss.random); vh::stat("shape_zero_length_raw_item", ss.zeroLen);
@@ -552,8 +628,39 @@ static void Regress()
          std::string why; QueryFilterRef g2 = RoundTrip(f, &why); if (g2() == NULL) RFail(T, "restore failed: " + why); else { ConstMessageRef c2 = rm; Expect(T, vh::fmt("restored filter, [%s] on [%s]", w[i].pat, w[i].subject), g2()->Matches(c2, NULL), w[i].want); }
       }
    }
+   vh::begin_case(9);
+   {  // seeded change C14-3: SetFromArchive() into a filter object that has already compiled and used its StringMatcher must forget the old pattern
+      const std::string T = "setfromarchive-into-used-object";
+      struct U { uint8 op; const char * oldPat; const char * newPat; const char * oldHit; const char * newHit; } u[] = {
+         {StringQueryFilter::OP_SIMPLE_WILDCARD_MATCH, "a*", "b*", "abc", "bcd"}, {StringQueryFilter::OP_REGULAR_EXPRESSION_MATCH, "^a.*$", "^b.*$", "abc", "bcd"},
+         {StringQueryFilter::OP_SIMPLE_WILDCARD_MATCH_IGNORECASE, "a*", "b*", "Abc", "Bcd"}, {StringQueryFilter::OP_REGULAR_EXPRESSION_MATCH_IGNORECASE, "^a.*$", "^b.*$", "ABC", "BCD"} };
+      for (size_t i = 0; i < sizeof(u) / sizeof(u[0]); i++) {
+         StringQueryFilter used("s", u[i].op, u[i].oldPat), fresh("s", u[i].op, u[i].newPat);
+         MessageRef mo = GetMessageFromPool(1), mn = GetMessageFromPool(1); (void)mo()->AddString("s", u[i].oldHit); (void)mn()->AddString("s", u[i].newHit);
+         ConstMessageRef c = mo; Expect(T, vh::fmt("op %u [%s] on [%s] before", u[i].op, u[i].oldPat, u[i].oldHit), used.Matches(c, NULL), true);
+         Message a; if (fresh.SaveToArchive(a).IsError() || used.SetFromArchive(a).IsError()) { RFail(T, "SaveToArchive/SetFromArchive failed"); continue; }
+         c = mn; Expect(T, vh::fmt("op %u: object that had matched with [%s], after SetFromArchive([%s]), on [%s]", u[i].op, u[i].oldPat, u[i].newPat, u[i].newHit), used.Matches(c, NULL), true);
+         c = mo; Expect(T, vh::fmt("op %u: object that had matched with [%s], after SetFromArchive([%s]), on [%s]", u[i].op, u[i].oldPat, u[i].newPat, u[i].oldHit), used.Matches(c, NULL), false);
+         NodeNameQueryFilter nu(u[i].op, i & 1 ? "^node.*$" : "node*"), nf(u[i].op, i & 1 ? "^Z.*$" : "Z*");
+         c = mo; Expect(T, "NodeNameQueryFilter before", nu.Matches(c, rNodes[1]()), true);
+         Message na; if (nf.SaveToArchive(na).IsError() || nu.SetFromArchive(na).IsError()) { RFail(T, "NodeName SaveToArchive/SetFromArchive failed"); continue; }
+         Expect(T, "NodeNameQueryFilter reused object on node Zed", nu.Matches(c, rNodes[2]()), true); Expect(T, "NodeNameQueryFilter reused object on node node1", nu.Matches(c, rNodes[1]()), false);
+      }
+      // the other classes: a used object takes over everything from the archive
+      Int32QueryFilter nUsed("a", Int32QueryFilter::OP_EQUAL_TO, 1, 2, 7); nUsed.SetMask(NQF_MASK_OP_AND, 3); Int32QueryFilter nFresh("b", Int32QueryFilter::OP_GREATER_THAN, 5);
+      MessageRef mb = GetMessageFromPool(1); (void)mb()->AddInt32("b", 6); ConstMessageRef c = mb; (void)nUsed.Matches(c, NULL);
+      Message a; if (nFresh.SaveToArchive(a).IsError() || nUsed.SetFromArchive(a).IsError()) RFail(T, "numeric SaveToArchive/SetFromArchive failed");
+      else { c = mb; Expect(T, "Int32QueryFilter reused: index, default and mask of the old object are gone", nUsed.Matches(c, NULL) && !nUsed.IsAssumedDefault() && nUsed.GetMaskOp() == NQF_MASK_OP_NONE && nUsed.GetIndex() == 0, true); }
+      AndQueryFilter mUsed(ConstQueryFilterRef(new WhatCodeQueryFilter(1)), ConstQueryFilterRef(new WhatCodeQueryFilter(2)), ConstQueryFilterRef(new WhatCodeQueryFilter(3))); c = mb; (void)mUsed.Matches(c, NULL);
+      AndQueryFilter mFresh(ConstQueryFilterRef(new WhatCodeQueryFilter(1)));
+      Message ma; if (mFresh.SaveToArchive(ma).IsError() || mUsed.SetFromArchive(ma).IsError()) RFail(T, "And SaveToArchive/SetFromArchive failed");
+      else { c = mb; Expect(T, "AndQueryFilter reused: three old children replaced by the one archived child", mUsed.Matches(c, NULL) && mUsed.GetChildren().GetNumItems() == 1, true); }
+      RawDataQueryFilter rUsed("r", RawDataQueryFilter::OP_EQUAL_TO, BytesRef("a"), B_RAW_TYPE, 0, BytesRef("a")), rFresh("r", RawDataQueryFilter::OP_EQUAL_TO, BytesRef("a")); c = mb; (void)rUsed.Matches(c, NULL);
+      Message ra; if (rFresh.SaveToArchive(ra).IsError() || rUsed.SetFromArchive(ra).IsError()) RFail(T, "raw SaveToArchive/SetFromArchive failed");
+      else { c = mb; Expect(T, "RawDataQueryFilter reused: the old assumed default is gone", rUsed.Matches(c, NULL), false); }
+   }
    vh::stat("regress_checks", regressChecks);
-   for (int i = 1; i <= 9; i++) vh::distinct((uint64_t)i);
+   for (int i = 1; i <= 10; i++) vh::distinct((uint64_t)i);
 }
 
 int main(int argc, char ** argv)
